@@ -232,7 +232,8 @@ def corpus_net(rng, name):
     else:
       x = b.input({"known_pad_conv_reshape": [1, 4, 9, 4], "known_lut_reshape": [1, 3, 9, 8],
                  "known_cascade_stale_row": [1, 10, 8, 8], "known_slice_strided_conv": [1, 6, 6, 4],
-                 "known_pad_concat": [1, 1, 3, 16], "known_pad_strided_dw": [1, 10, 9, 4]}.get(name, [1, 6, 6, 8]), scale=0.05, zp=3)
+                 "known_pad_concat": [1, 1, 3, 16], "known_pad_strided_dw": [1, 10, 9, 4], "known_sconv_unit_output": [1, 2, 18, 4],
+                 "known_sconv_filter_shift": [1, 4, 24, 3]}.get(name, [1, 6, 6, 8]), scale=0.05, zp=3)
     if name == "known_slice_relu":
         y = b.pool(x, "MAX_POOL_2D", (3, 3), (1, 1), "SAME")
         s = b.strided_slice(y, [0, 1, 2, 0], [1, 5, 6, 8])
@@ -302,6 +303,12 @@ def corpus_net(rng, name):
         b.t(m).shape = list(b.t(x).shape)
         _same_quant(b, m, x)
         z = b.binary("MAXIMUM", x, m)
+    elif name == "known_sconv_unit_output":
+        # first operator, stride (2, 4): the width is folded by 2, then the OFM height 1 makes the padding explicit
+        z = b.conv(x, 2, (1, 6), (2, 4), (1, 1), "SAME", act=0)
+    elif name == "known_sconv_filter_shift":
+        # stride (1, 9) SAME: folded by 3, one zero column in front of the 3-wide filter although no padding is needed
+        z = b.conv(x, 2, (1, 3), (1, 9), (1, 1), "SAME", act=0)
     elif name == "known_pad_hw_and_channel":
         # PAD that pads height/width and channels at once
         z = b.pool(b.pad(x, [[0, 0], [1, 1], [1, 1], [0, 2]]), "MAX_POOL_2D", (1, 1), (1, 1), "VALID")
@@ -356,6 +363,8 @@ def _worker(job):
         out.update(desc=net.describe(), opts=opts, src_ops=[o.kind for o in net.ops], dtype=net.tensors[net.inputs[0]].dtype,
                    src_inputs=list(net.inputs),
                    src_quant=[(list(t.scales or []), list(t.zps or [])) for t in net.tensors],
+                   src_shapes=[list(t.shape) for t in net.tensors],
+                   src_strides=[(int((o.opts[1] if o.opts else {}).get("StrideH", 1)), int((o.opts[1] if o.opts else {}).get("StrideW", 1))) for o in net.ops],
                    src_scalars={i: int(np.asarray(t.data).reshape(-1)[0]) for i, t in enumerate(net.tensors)
                                 if t.data is not None and np.asarray(t.data).size == 1},
                    src_pads={i: np.asarray(t.data).reshape(-1, 2).tolist() for i, t in enumerate(net.tensors)
@@ -438,6 +447,15 @@ def classify_failure(o, ans):
                             return "mul-max-to-abs:quantised-minus-one-not-real-minus-one"
                         if q >= 0 and real > 1:
                             return "mul-max-to-lrelu:real-constant-above-one"
+        # SAME-padded CONV_2D whose width gets folded into the channels (first operator with a width stride > 1, or any with a width
+        # stride > 3): explicit padding from the unfolded width when the OFM height/width is 1, misaligned filter zero columns otherwise
+        shapes, strides = o.get("src_shapes") or [], o.get("src_strides") or []
+        for n_op, (kind, ins, outs, faf, pad, stride) in enumerate(g):
+            if kind == "CONV_2D" and pad == 0 and n_op < len(strides) and strides[n_op][1] > 1 and (n_op == 0 or strides[n_op][1] > 3):
+                osh = shapes[outs[0]] if outs[0] < len(shapes) else []
+                if len(osh) == 4 and (osh[1] == 1 or osh[2] == 1):
+                    return "strided-conv-fold:unit-output-padding-from-unfolded-width"
+                return "strided-conv-fold:filter-zero-padding-misaligned"
         # PAD with channel (or batch) padding and spatial padding at once: convert_pad_to_concat keeps only the channel part
         pads = o.get("src_pads") or {}
         for kind, ins, outs, faf, pad, stride in g:
@@ -489,7 +507,8 @@ def main():
     jobs = [(0, 0, "known_" + nm, k_inputs) for nm in ("slice_relu", "fused_act_relu", "pad_conv_reshape", "quantize_relu", "reshape_relu",
                                                               "slice_window", "lut_reshape", "cascade_stale_row", "pad_avgpool_act", "slice_of_slice", "slice_strided_conv", "fc_int16",
                                                               "slice_strided_pool", "pad_concat", "pad_strided_dw", "lrelu16_relu6", "lrelu16_reshape",
-                                                              "mulmax_gt1", "mulmax_q0", "mulmax_qm1", "lrelu16_rounding", "pad_hw_and_channel")]
+                                                              "mulmax_gt1", "mulmax_q0", "mulmax_qm1", "lrelu16_rounding", "pad_hw_and_channel",
+                                                              "sconv_unit_output", "sconv_filter_shift")]
     jobs += [(ck.seed, i, PROFILES[i % len(PROFILES)], k_inputs) for i in range(n)]
     ctx = multiprocessing.get_context("fork")
     t0 = time.time()
